@@ -273,6 +273,12 @@ def cut_corpus(rng, n_random, tier, share=0.0, kinds=("$", "<>")):
             cfg = molgen.make_cut_config(g, block, rng, kinds=kinds, share=share)
             if cfg is not None:
                 out.append((g, cfg, smi))
+    for smi, blocks in molgen.MULTICUT:
+        g = molgen.read_reference(smi)
+        for _ in range(per):
+            cfg = molgen.make_cut_config(g, dict(enumerate(blocks)), rng, kinds=kinds, share=0.0)
+            if cfg is not None:
+                out.append((g, cfg, smi))
     for i in range(n_random):
         g = molgen.random_molecule(rng, rng.randint(2, 12))
         if not perceived_ok(g):
@@ -394,9 +400,70 @@ def pmap(fn, items, chunksize=64):
         return pool.map(fn, items, chunksize=chunksize)
 
 
+def decorations(base, names):
+    """The base graph with one fragment-less node [#V] hung on a real node by a zero-order ring bond: the marker is
+    written in front of / behind the markers the node already has, in digit and in % form; [#V] follows a '.' at the end."""
+    used = {t["n"] for t in base if t["k"] == "R"}
+    free = next(n for n in range(2, 99) if n not in used)
+    out = []
+    for i, t in enumerate(base):
+        if t["k"] != "N" or t["v"] not in names:
+            continue
+        j = i + 1
+        while j < len(base) and (base[j]["k"] == "R" or (base[j]["k"] == "B" and j + 1 < len(base) and base[j + 1]["k"] == "R")):
+            j += 1
+        for at in sorted({i + 1, j}):
+            for form, n in (("d", free), ("%", free + 10)):
+                if n in used:
+                    continue
+                ring = render.tok("R", form, n)
+                new = base[:at] + [render.tok("B", "."), ring] + base[at:] + [render.tok("B", "."), render.tok("N", "V"), ring]
+                out.append(new)
+    return out
+
+
+def _one_decorated(args):
+    i, base, lib, legacy = args
+    names = {f[0] for f in lib["frags"]}
+    orig = config_record(base, lib, legacy)
+    if orig["obs"]["outcome"] != "ok":
+        return []
+    recs = []
+    for new in decorations(base, names):
+        try:
+            if render.render_graph_tokens(render.tokenize_graph(render.render_graph_tokens(new))) != render.render_graph_tokens(new):
+                continue
+        except render.Untokenizable:
+            continue
+        r = config_record(new, lib, legacy)
+        r["twin"] = {"outcome": "ok", "fine": orig["obs"]["fine"]}      # the undecorated configuration, read on its own
+        r["decorated"] = True
+        recs.append(r)
+    return recs
+
+
+def decorated_records(cfgs, tier):
+    """configurations with a ring and without virtual node, decorated with a zero-order ring bond to a virtual node"""
+    rng = common.rng("decorate")
+    cand = [(b, l, g) for b, l, g in cfgs
+            if any(t["k"] == "R" for t in b) and "V" not in {f[0] for f in l["frags"]}
+            and not any(t["k"] == "N" and t["v"] not in {f[0] for f in l["frags"]} for t in b)]
+    rng.shuffle(cand)
+    cand = cand[: 150 if tier == "quick" else 2500]
+    out = []
+    for rs in pmap(_one_decorated, [(i, b, l, g) for i, (b, l, g) in enumerate(cand)], chunksize=8):
+        out += rs
+    return out
+
+
 def config_records(check, tier, with_twin=False, extra=False):
     cfgs = enumerate_configs(check, tier, extra=extra)
-    return pmap(_one_config, [(i, b, l, g, with_twin) for i, (b, l, g) in enumerate(cfgs)])
+    recs = pmap(_one_config, [(i, b, l, g, with_twin) for i, (b, l, g) in enumerate(cfgs)])
+    if with_twin:
+        dec = decorated_records(cfgs, tier)
+        check.extra["decorated_configs"] = len(dec)
+        recs += dec
+    return recs
 
 
 def repo_records():
@@ -809,6 +876,24 @@ def run_c06(tier):
 # ----------------------------------------------------------------------------------------------
 # C15: stereo information
 # ----------------------------------------------------------------------------------------------
+def explicit_h_record(smi, reftoks, base, frags, posmap):
+    """no reference graph (the explicit hydrogens are atoms of the fragment text): only the C15 clauses apply, through
+    the witness fine atom -> atom of the uncut text given by the mapping attribute"""
+    text = render.render_graph_tokens(base) + ".{" + ",".join(
+        "#" + n + "=" + render.render_fragment_tokens(t) for n, t in frags) + "}"
+    obs = project.run_resolve(text, last_all_atom=True, legacy=True)
+    step = obs["steps"][0] if obs["steps"] else None
+    wit = []
+    if step is not None:
+        for n in step["fine"]["nodes"]:
+            if n["map"]:
+                wit.append([n["id"], posmap[(n["map"][0][0], n["map"][0][1])]])
+    return {"mode": "resolve", "text": text, "level": 0, "basekind": "tokens", "base": base,
+            "basegraph": {"names": [], "edges": []}, "frags": [[n, t] for n, t in frags], "fragcoarse": False,
+            "legacy": True, "allAtom": True, "obs": slim_obs(step, obs["outcome"]),
+            "wit": wit, "reftoks": reftoks, "smi": smi, "ncuts": len(frags) - 1, "nshared": 0, "nblocks": len(frags)}
+
+
 def run_c15(tier):
     from .. import molgen
     check = Check("C15", tier=tier)
@@ -838,6 +923,13 @@ def run_c15(tier):
             r["reftoks"] = reftoks
             r["marked_cuts"] = cfg["marked_cuts"]
             recs.append(r)
+    nh = 0
+    for smi in molgen.STEREO_H:
+        reftoks, cfgs = molgen.explicit_h_configs(smi)
+        for base, frags, posmap in cfgs:
+            recs.append(explicit_h_record(smi, reftoks, base, frags, posmap))
+            nh += 1
+    check.extra["explicit_hydrogen_ligand_traces"] = nh
     verdicts = validate_with(check, recs, extra=("reftoks",))
     CLAUSES["C15"] = ["X_Accepted", "C15_Chiral", "C15_Relation", "C15_PathExists"]
     judge(check, "C15", recs, verdicts, nontrivial=lambda r, v: r.get("ncuts", 0) > 0)
